@@ -99,6 +99,22 @@ example : (run St.init (trace.take 3 ++ [.acceptBegin 1])).isNone = true := by d
 example : ((run St.init (trace.take 5)).map (fun s => (s.phase, s.stopReq, decide s.coQuiet))) = some (.up, true, true) := by
   decide +kernel
 
+/-- **overlapping shutdown requests are one request**: a second `shutdown()` - from the same or from
+another thread, at any moment at which the first one was possible - is always possible too and
+leaves the runtime in the very state the first one left it in -/
+theorem shutdown_twice (s s' : St) (h : step s .shutdownCall = some s') :
+    step s' .shutdownCall = some s' := by
+  simp only [step] at h ⊢
+  by_cases hup : s.phase = .up
+  · simp only [hup, if_true] at h
+    cases h
+    simp
+  · simp only [hup, if_false] at h
+    by_cases hr : s.phase.restartable
+    · simp only [hr, if_true] at h
+      cases h
+      simp [hup, hr]
+    · simp [hr] at h
 /-! ### the runtime glue as written in the source
 
 The model of this property was transcribed from these functions (the life cycle: `accept` (behind the `exclusive()` guard, whose shape is pinned separately), `shutdown`, the acceptor payload with its `running` / `_is_shutdown` events, start and stop of the runners - the events `acceptBegin`, `acceptRejected`, `shutdownCall`, `close`, `endRun` of the LTS and the phases of a run).
